@@ -24,6 +24,7 @@ import SkNet.Lemmas.BreakDirGlobal
 import SkNet.Lemmas.BreakFuel
 import SkNet.Lemmas.BreakDist
 import SkNet.Lemmas.Forest
+import SkNet.Lemmas.CompleteUnd
 
 namespace SkNet.C12
 open SkNet SkNet.Connectivity SkNet.Cycles
@@ -724,6 +725,133 @@ theorem getCycles_empty_iff_acyclic_directed (fuel : Nat) (nCC : Bool → Nat) (
       exfalso
       have := getCycles_sound fuel nCC labels m directed true (c :: t) hc hsq hd hlab.1 h c List.mem_cons_self
       exact hno (hasCycle_of_simpleCycle this)
+
+/-- ★ "none iff acyclic" (undirected graph, self-loops allowed, no duplicate entry): with scipy's contract for the
+    components, `get_cycles` returns the empty list exactly when the graph has no cycle (no self-loop, no simple cycle
+    with three nodes or more). The early return rests on the forest criterion (`Lemmas/Forest.lean`,
+    `no_cycle_of_criterion`), the traversal on its completeness: the first node of a component reaches every cycle
+    of the component, and every back edge other than the move to the parent is recorded (`Lemmas/CompleteUnd.lean`). -/
+theorem getCycles_empty_iff_acyclic_undirected (fuel : Nat) (nCC : Bool → Nat) (labels : Bool → List Nat) (m : Mat)
+    (directed : Option Bool) (cs : List (List Nat))
+    (hc : m.Canon) (hsq : m.nRow = m.nCol) (hnn : m.NonNeg) (hrows : ∀ i, i < m.nRow → (m.adj i).Nodup)
+    (hd : resolveDirected m directed = .ok false)
+    (hlab : IsLabelling m.nRow m.adj false (labels false))
+    (hn : nCC false = (npUnique (labels false)).length)
+    (h : getCyclesWith fuel nCC labels m directed = .ok (some cs)) :
+    cs = [] ↔ ∀ C, ¬ IsSimpleCycle m.nRow m.adj false C := by
+  have hs := resolveDirected_false hd
+  have hwf := Canon.wf hc hsq
+  have hsym := Canon.sym hc hs
+  have hsound := getCycles_sound fuel nCC labels m directed false cs hc hsq hd hlab.1 h
+  have hloops := selfLoop_cycles_simple m hc hsq false
+  -- a cycle of one node is a recorded self-loop
+  have hone : ∀ v, IsSimpleCycle m.nRow m.adj false [v] → [v] ∈ (selfLoops m).map fun v => [v] := by
+    intro v hC
+    obtain ⟨_, hlt, hcl, _⟩ := hC
+    have : isChain m.adj ([v] ++ [v]) = true := hcl
+    have hmem : v ∈ m.adj v := by simpa [isChain] using this
+    have hv := hlt v (by simp)
+    refine List.mem_map.mpr ⟨v, ?_, rfl⟩
+    simp only [selfLoops, List.mem_filter, List.mem_range, decide_eq_true_eq]
+    exact ⟨hv, Rat.lt_of_le_of_ne (hnn v v) (Ne.symm ((hc v v hv).mp hmem).2)⟩
+  -- the right-hand side in two parts
+  have hsplit : (∀ C, ¬ IsSimpleCycle m.nRow m.adj false C) ↔
+      (selfLoops m = [] ∧ ¬ ∃ C, IsSimpleCycle m.nRow m.adj false C ∧ 3 ≤ C.length) := by
+    constructor
+    · intro hno
+      refine ⟨?_, fun ⟨C, hC, _⟩ => hno C hC⟩
+      cases hsl : selfLoops m with
+      | nil => rfl
+      | cons v t => exact absurd (hloops [v] (by rw [hsl]; simp)) (hno [v])
+    · intro ⟨hnl, hno3⟩ C hC
+      obtain ⟨_, _, _, hlen⟩ := id hC
+      rcases hlen with hf | h1 | h3
+      · cases hf
+      · match C, h1, hC with
+        | [v], _, hC =>
+          have := hone v hC
+          rw [hnl] at this
+          cases this
+      · exact hno3 ⟨C, hC, h3⟩
+  rw [hsplit]
+  unfold getCyclesWith at h
+  simp only [hd, Bool.false_and, Bool.false_eq_true, ↓reduceIte, Bool.not_false, Bool.true_and] at h
+  split at h
+  · -- early return: the criterion holds
+    rename_i hcrit
+    cases h
+    have hcrit' : ((npUnique (labels false)).length : Int) =
+        (m.nRow : Int) - (((((List.range m.nRow).map fun i => (m.adj i).length).sum / 2 : Nat)) : Int) := by
+      have : ((nCC false : Int) == (m.nRow : Int) - ((m.nnz / 2 : Nat) : Int)) = true := hcrit
+      rw [beq_iff_eq, hn] at this
+      exact this
+    have hno3 := SkNet.Forest.no_cycle_of_criterion hwf hsym hrows hlab hcrit'
+    constructor
+    · intro he
+      refine ⟨?_, hno3⟩
+      cases hsl : selfLoops m with
+      | nil => rfl
+      | cons v t => rw [hsl] at he; simp at he
+    · intro ⟨hnl, _⟩
+      rw [hnl]; rfl
+  · split at h
+    · cases h
+    · rename_i cycles hcy
+      cases h
+      constructor
+      · intro he
+        have hcyc : cycles = [] := by
+          apply Classical.byContradiction
+          intro hne
+          exact dedupCycles_ne_nil false cycles hne he
+        obtain ⟨hkeep, hexp⟩ := cyclesFromStarts_explores_und m.adj fuel _ _ cycles hcy
+        refine ⟨?_, ?_⟩
+        · cases hsl : selfLoops m with
+          | nil => rfl
+          | cons v t =>
+            have := hkeep [v] (by rw [hsl]; simp)
+            rw [hcyc] at this; cases this
+        · intro ⟨C, hC, hlen⟩
+          -- the first node of the component of the cycle is a start node and reaches it
+          obtain ⟨c, t, rfl⟩ : ∃ c t, C = c :: t := by
+            cases C with
+            | nil => simp at hlen
+            | cons c t => exact ⟨c, t, rfl⟩
+          have hcn : c < m.nRow := hC.2.1 c List.mem_cons_self
+          obtain ⟨hlenl, hsame⟩ := hlab
+          have hcl' : c < (labels false).length := hlenl ▸ hcn
+          have hL : (labels false).getD c 0 ∈ labels false := by
+            simp [List.getD_eq_getElem?_getD, hcl']
+          have hsl : firstOfLabel (labels false) ((labels false).getD c 0) < (labels false).length :=
+            List.idxOf_lt_length_iff.mpr hL
+          have hslab : (labels false).getD (firstOfLabel (labels false) ((labels false).getD c 0)) 0 =
+              (labels false).getD c 0 := by
+            have hsl' : List.idxOf ((labels false).getD c 0) (labels false) < (labels false).length := hsl
+            show (labels false).getD (List.idxOf ((labels false).getD c 0) (labels false)) 0 = _
+            rw [List.getD_eq_getElem?_getD, List.getElem?_eq_getElem hsl']
+            exact List.getElem_idxOf hsl'
+          have hstart : firstOfLabel (labels false) ((labels false).getD c 0) ∈
+              (npUnique (labels false)).map (firstOfLabel (labels false)) :=
+            List.mem_map.mpr ⟨_, mem_npUnique.mpr hL, rfl⟩
+          have hsn := hlenl ▸ hsl
+          have hweak := (hsame _ c hsn hcn).mp hslab
+          simp only [SameComp, Bool.false_eq_true, ↓reduceIte] at hweak
+          have hreach : Reach m.adj (firstOfLabel (labels false) ((labels false).getD c 0)) c := by
+            refine SkNet.Forest.reach_congr (weakAdj_wf hwf) ?_ hsn hweak
+            intro x hx y hy
+            rcases List.mem_append.mp hy with h' | h'
+            · exact h'
+            · obtain ⟨hyn, hmem⟩ := List.mem_filter.mp h'
+              exact hsym y (List.mem_range.mp hyn) x (by simpa using hmem)
+          have := cycle_found_und fuel _ _ cycles hcy hstart hC hlen List.mem_cons_self hreach
+          exact this hcyc
+      · intro ⟨hnl, hno3⟩
+        cases hcs : dedupCycles false cycles ([], []) with
+        | nil => rfl
+        | cons c t =>
+          exfalso
+          have hC := hsound c (by rw [hcs]; exact List.mem_cons_self)
+          exact (hsplit.mpr ⟨hnl, hno3⟩) c hC
 
 /-- the directed square with a chord 1 → 3 (the repository's own test): two cycles, both genuine -/
 def chordSquare : Mat :=
